@@ -12,7 +12,10 @@ from . import extract, verus_run, kani_run, props
 
 ROOT = os.path.dirname(os.path.dirname(os.path.abspath(__file__)))
 REPO = os.environ.get('VERIF_REPO', '/repo')
-BUILD = os.path.join(ROOT, 'build')
+BUILD = os.environ.get('VERIF_BUILD') or os.path.join(ROOT, 'build')
+EVID = os.environ.get('VERIF_EVIDENCE_DIR') or os.path.join(ROOT, 'evidence')
+# development switch (mutation scoring, vfw/mutscore.py): Verus obligations only -- no Kani, no replay search, no bounded checks
+PROOF_ONLY = bool(os.environ.get('VERIF_PROOF_ONLY'))
 
 
 def log(*a):
@@ -104,7 +107,7 @@ def run_property(pid, tier, seed):
     spec = props.PROPS[pid]
     os.makedirs(BUILD, exist_ok=True)
     os.makedirs(os.path.join(BUILD, 'replay'), exist_ok=True)
-    os.makedirs(os.path.join(ROOT, 'evidence'), exist_ok=True)
+    os.makedirs(EVID, exist_ok=True)
     inconclusive = []
     failed = []          # obligations
     foreign = []         # failed obligations that belong to other properties only
@@ -115,7 +118,10 @@ def run_property(pid, tier, seed):
     if tier == 'thorough':
         seeds += [(seed * 7919 + k * 104729 + 1) % 100000 for k in range(3)]
     # 1. extract
+    only_units = [u for u in (os.environ.get('VERIF_ONLY_UNITS') or '').split(',') if u]   # development switch (mutscore)
     for unit in spec.get('units', []):
+        if only_units and unit not in only_units:
+            continue
         try:
             g, path = gen_unit(unit, sub=pid)
             gc, pathc = gen_unit(unit, canary=True, sub=pid)
@@ -137,7 +143,7 @@ def run_property(pid, tier, seed):
         for (unit, kind, sd, g, path) in jobs:
             futs[ex.submit(verus_run.run, path, g, unit, rl, sd, None, 1500, 2)] = (unit, kind, sd)
         kfut = None
-        if spec.get('kani'):
+        if spec.get('kani') and not PROOF_ONLY:
             hs = [h for h in spec['kani'] if tier == 'thorough' or not h.get('thorough_only')]
             kfut = ex.submit(kani_run.run_harnesses, ROOT, REPO, hs, BUILD)
         for fu in cf.as_completed(futs):
@@ -257,7 +263,7 @@ def run_property(pid, tier, seed):
     # code change) is undecided for the proof; the replay enumerator is then run on the REAL code as a bounded
     # check.  A concrete failing input is a demonstrated violation; finding none leaves the run inconclusive.
     bounded = None
-    if any(m.startswith(('anchor-lost', 'tool-limit')) for m in inconclusive) and not violations and spec.get('replay'):
+    if any(m.startswith(('anchor-lost', 'tool-limit')) for m in inconclusive) and not violations and spec.get('replay') and not PROOF_ONLY:
         rp = spec['replay']
         keys = sorted(set(rp.values()) | set(spec.get('bounded_extra', []))) if isinstance(rp, dict) else sorted(set([rp]) | set(spec.get('bounded_extra', [])))
         bounded = {'keys': keys, 'found': None, 'bounds': {k: props.REPLAY_BOUNDS.get(k, '') for k in keys}}
@@ -283,7 +289,7 @@ def run_property(pid, tier, seed):
     # not_covered), and cross-check the trusted stubs; a failing input found here is a demonstrated violation.
     # quick: one enumerator seed; thorough: five.
     crosscheck = None
-    if spec.get('replay') and not violations and bounded is None and not os.environ.get('VERIF_NO_BOUNDED'):
+    if spec.get('replay') and not violations and bounded is None and not os.environ.get('VERIF_NO_BOUNDED') and not PROOF_ONLY:
         rp = spec['replay']
         keys = sorted(set(rp.values()) | set(spec.get('bounded_extra', []))) if isinstance(rp, dict) else sorted(set([rp]) | set(spec.get('bounded_extra', [])))
         crosscheck = {'label': 'bounded: NOT counted in obligations/discharged', 'bounds': {k: props.REPLAY_BOUNDS.get(k, '') for k in keys}}
@@ -294,7 +300,10 @@ def run_property(pid, tier, seed):
                 try:
                     cex, slog = run_replay_search(key, {'name': 'bounded-check', 'function': 'prop:' + pid}, rs)
                 except Exception as e:
+                    # a bounded check that cannot be completed (enumerator does not build against the changed tree, or does
+                    # not finish: a hang of the real code) leaves the run undecided -- never "held"
                     cex, slog = None, 'replay search failed to run: %r' % (e,)
+                    inconclusive.append('bounded-check %s could not be completed: %s' % (key, describe_search_failure(e)))
                 logs.append('seed %d: %s' % (rs, slog.strip().split('\n')[-1][:160] if slog else ''))
                 if cex:
                     break
@@ -336,7 +345,7 @@ def run_property(pid, tier, seed):
         'wall_s': round(wall, 2),
         'violations': len(violations),
     }
-    with open(os.path.join(ROOT, 'evidence', pid + '.json'), 'w') as fo:
+    with open(os.path.join(EVID, pid + '.json'), 'w') as fo:
         json.dump(ev, fo, indent=1)
     # 6. verdict
     if inconclusive:
@@ -406,12 +415,22 @@ def replay_bin():
     return os.path.join(BUILD, 'replay-target', 'release', 'rsdd-replay')
 
 
+def describe_search_failure(e):
+    if isinstance(e, subprocess.TimeoutExpired):
+        err = e.stderr.decode('utf-8', 'replace') if isinstance(e.stderr, bytes) else (e.stderr or '')
+        running = [ln for ln in err.split('\n') if ln.startswith('RUNNING ')]
+        return 'the enumerator did not finish within %s s; last case started: %s' % (e.timeout, running[-1][len('RUNNING '):][:300] if running else 'unknown')
+    return repr(e)[:300]
+
+
 def run_replay_search(rp, f, seed):
+    if PROOF_ONLY:
+        return None, 'replay search skipped (VERIF_PROOF_ONLY)'
     b = replay_bin()
     args = [b, 'search', rp, '--obligation', f['name'], '--function', f.get('function', ''), '--seed', str(seed)]
     if f.get('kani_trace'):
         args += ['--hint', json.dumps(f['kani_trace'])]
-    p = subprocess.run(args, capture_output=True, text=True, timeout=600)
+    p = subprocess.run(args, capture_output=True, text=True, timeout=300)
     out = p.stdout
     cex = None
     for ln in out.split('\n'):
@@ -421,7 +440,16 @@ def run_replay_search(rp, f, seed):
             except Exception:
                 cex = {'raw': ln[len('FAILING-INPUT '):]}
             break
-    return cex, out + p.stderr
+    running = [ln for ln in p.stderr.split('\n') if ln.startswith('RUNNING ')]
+    if cex is None and 'NO-FAILING-INPUT' not in out and p.returncode != 0 and running:
+        # the enumerator died (stack overflow / abort: not catchable as a panic): the real code crashed on the last case it announced
+        try:
+            cex = json.loads(running[-1][len('RUNNING '):])
+        except Exception:
+            cex = {'raw': running[-1][len('RUNNING '):]}
+        cex['why'] = 'the real code crashed on this input (enumerator exit status %s: stack overflow or abort)' % p.returncode
+    err = '\n'.join(ln for ln in p.stderr.split('\n') if not ln.startswith('RUNNING '))
+    return cex, out + err
 
 
 def do_replay(pid, path):
@@ -435,6 +463,9 @@ def do_replay(pid, path):
     b = replay_bin()
     p = subprocess.run([b, 'replay', json.dumps(cex)], capture_output=True, text=True, timeout=600)
     log(p.stdout + p.stderr)
+    if p.returncode not in (0,) and 'PASSES' not in p.stdout and 'STILL-FAILS' not in p.stdout:
+        log('STILL-FAILS: the replay process crashed (exit status %s)' % p.returncode)
+        return 1
     return 1 if 'STILL-FAILS' in p.stdout else 0
 
 
